@@ -594,3 +594,23 @@ Proof.
   destruct (inv_canon st HI k1 m1 H1) as (p1 & P1 & C1). destruct (inv_canon st HI k2 m2 H2) as (p2 & P2 & C2).
   rewrite O1 in P1. rewrite O2 in P2. inversion P1; inversion P2; subst. rewrite C1 in C2. inversion C2. reflexivity.
 Qed.
+
+(* what a failure must NOT touch: forgetting the failed module m (cached under its own path ps) removes the entries of m and
+   nothing else - every other module, in particular a member of a cycle through m whose own evaluation had completed, stays
+   cached under every one of its names, and no module's exports, owner or evaluation counter moves. (Every failure branch of
+   load_module has the shape (forget stx m ps, r).) *)
+Theorem forget_keeps_others st m ps k m' :
+  Inv st -> cache_get (files_cache st) ps = Some m -> m' <> m -> cached st k m' -> cached (forget st m ps) k m'.
+Proof.
+  intros HI Hps Hne Hc. destruct (forget_get st m ps HI) as (Gf & Gr & Gn).
+  assert (Eq : Nat.eqb m' m = false) by (apply Nat.eqb_neq; exact Hne).
+  destruct Hc as [Hc|[Hc|Hc]].
+  - left. rewrite Gf. destruct (zs_eqb k ps) eqn:E.
+    + apply zs_eqb_eq in E. subst k. rewrite Hps in Hc. inversion Hc. congruence.
+    + rewrite Hc, Eq. reflexivity.
+  - right; left. rewrite Gr, Hc, Eq. reflexivity.
+  - right; right. rewrite Gn, Hc, Eq. reflexivity.
+Qed.
+
+Lemma forget_store st m ps : store (forget st m ps) = store st /\ counters (forget st m ps) = counters st.
+Proof. split; reflexivity. Qed.
